@@ -190,6 +190,11 @@ def run_recv(c, P):
     if P.get('reads') == 'joined':
         # the upgrade reply and the frames behind it arrive in the SAME read (as much as the receive buffer takes)
         w.default_script = Script(hconn.server_stream(stream, extra), cuts='one', end='eof')
+    elif P.get('reads') == 'header-own-read':
+        # the server writes the frame header and the payload with two writes: the reply, the header and the payload are three reads,
+        # the payload read ends exactly at the frame end; the frame behind it arrives in a later read
+        _, L_, form_, _ = tcls.split(':')
+        w.default_script = HsThenCuts(w, hconn.server_stream(stream, extra), [{'7bit': 2, '16bit': 4, '64bit': 10}[form_], int(L_)], end='eof')
     elif P.get('reads') == 'tls16k':
         # TLS-like: the reply is split over two records (split position = solver variable), the following records are full
         k = [1, 17, 100][c.choose(3, 'hs_split')]
